@@ -310,3 +310,149 @@ UNITS += [
          assumptions=["expm1 / fastpow / inverse range / msc mfp are uninterpreted functions returning any non-NaN value", "NOT PROMOTED: MscStepToGeo's CELER_ENSURE(step <= tstep || soft_equal) (needs transcendental accuracy)"],
          note="MscStepToGeo: geometric path <= true path for ANY value of the transcendental functions (final min)"),
 ]
+
+
+# ---------------------------------------------------------------------------
+# RangeCalculator / InverseRangeCalculator (branch structure, index safety, which knots are interpolated)
+# ---------------------------------------------------------------------------
+IRC = "src/celeritas/grid/InverseRangeCalculator.hh"
+
+RN_RULES = Q_RULES + [
+    Rule(r"UniformGrid loge_grid\(data_\.log_energy\);", "UniformGrid loge_grid = {&self->data_->log_energy};", 1, note="UniformGrid view of the grid data (constructor EXPECT = XsGridData validity, in the requires)"),
+    Rule(r"LinearInterpolator<real_type> interpolate_xs\(\s*\{([^{}]*),([^{}]*)\},\s*\{([^{}]*),([^{}]*)\}\);", r"real_type ip_x0_ = \1, ip_y0_ = \2, ip_x1_ = \3, ip_y1_ = \4;", 1, note="LinearInterpolator construction -> its four arguments"),
+    Rule(r"std::log\(", "STD_LOG(", "*", note="std::log -> uninterpreted function"),
+    Rule(r"std::exp\(", "STD_EXP(", "*", note="std::exp -> uninterpreted function"),
+    Rule(r"real_type\(\.5\)", "((real_type).5)", 1, note="functional cast"),
+    Rule(r"this->get\(", "XS_get(self, ", "*", note="member call"),
+    Rule(r"loge_grid\.(front|back|size)\(\)", r"UG_\1(&loge_grid)", "*", note="UniformGrid accessor"),
+    Rule(r"loge_grid\.find\(", "UG_find(&loge_grid, ", "*", note="UniformGrid::find -> stub with the c18_ug_find contract"),
+    Rule(r"loge_grid\[([^\[\]]*)\]", r"UG_index(&loge_grid, \1)", "*", note="UniformGrid::operator[] -> stub with the c18_ug_index contract"),
+    Rule(r"return interpolate_xs\(([^()]*)\);", r"return __CPROVER_uninterpreted_interp(ip_x0_, ip_y0_, ip_x1_, ip_y1_, \1);", 1, note="interpolator call -> uninterpreted function"),
+]
+
+
+def build_range_get(ctx):
+    pc = xs_get(ctx, RNC, r"CELER_FUNCTION real_type RangeCalculator::get\(size_type index\) const")
+    return (HDR + CALC_MODEL + VAL_AT + """
+real_type RN_get(XsCalculator const* self, size_type index)
+__CPROVER_requires(""" + CALC_OK + """)
+/* the caller's obligation: index designates a point of THIS grid (the function's own CELER_EXPECT only compares with the whole storage) */
+__CPROVER_requires(index < self->data_->value.end_ - self->data_->value.begin_)
+__CPROVER_assigns()
+__CPROVER_ensures(__CPROVER_isnand(""" + VAL % "index" + """) || __CPROVER_return_value == """ + VAL % "index" + """)
+{""" + pc.body + "}\n" + CALC_HARNESS % "RN_get(&c, i);")
+
+
+def build_range_call(ctx):
+    pc = ctx.func(RNC, r"CELER_FUNCTION real_type RangeCalculator::operator\(\)\(Energy energy\) const", RN_RULES, name="RangeCalculator::operator()")
+    return (HDR + CALC_MODEL + XS_GET_STUB + """
+#define LOGE STD_LOG(energy)
+#define SIZE_ (self->data_->log_energy.size)
+#define FRONT_ (self->data_->log_energy.front)
+#define BACK_ (self->data_->log_energy.back)
+#define GRIDPT(i) __CPROVER_uninterpreted_gridpoint(self->data_->log_energy.front, self->data_->log_energy.delta, (i))
+real_type RN_call(XsCalculator const* self, real_type energy)
+__CPROVER_requires(""" + CALC_OK + """)
+__CPROVER_requires(self->data_->prime_index == NO_SCALING)     /* constructor EXPECT: range tables are never scaled */
+__CPROVER_requires(energy > 0 && FIN(energy) && !__CPROVER_isnand(LOGE))
+__CPROVER_requires(FIN(""" + VAL % "0" + """) && FIN(""" + VAL % "SIZE_ - 1" + """))
+__CPROVER_assigns(g_bin)
+/* documented extrapolation: below the grid the first range scaled by sqrt(E/Emin) = exp((log E - log Emin)/2); at/above the last point the last range (clipped) */
+#define R_LOW EQV(__CPROVER_return_value, """ + VAL % "0" + """ * STD_EXP((real_type).5 * (LOGE - FRONT_)))
+#define R_INTERP ((g_bin + 1 < SIZE_) ? ((FIN(""" + VAL % "g_bin" + """) && FIN(""" + VAL % "g_bin + 1" + """)) ? EQV(__CPROVER_return_value, __CPROVER_uninterpreted_interp(STD_EXP(GRIDPT(g_bin)), """ + VAL % "g_bin" + """, STD_EXP(GRIDPT(g_bin + 1)), """ + VAL % "g_bin + 1" + """, energy)) : 1) : 0)
+__CPROVER_ensures(LOGE < FRONT_ ==> R_LOW)
+/* exactly at the first knot the scaled first value and the interpolation coincide mathematically: either form is accepted */
+__CPROVER_ensures(LOGE == FRONT_ ==> (R_LOW || R_INTERP))
+__CPROVER_ensures((LOGE > FRONT_ && LOGE >= BACK_) ==> EQV(__CPROVER_return_value, """ + VAL % "SIZE_ - 1" + """))
+/* inside the grid: linear interpolation in E between the knots bin and bin+1 (bin from UniformGrid::find) */
+#define IN_GRID (LOGE > FRONT_ && LOGE < BACK_)
+__CPROVER_ensures(IN_GRID ? R_INTERP : 1)
+{""" + pc.body + "}\n" + CALC_HARNESS % "RN_call(&c, e);")
+
+
+IRC_MODEL = """
+typedef struct { real_type const* a; size_type n; } NonuniformGrid;    /* the grid's values storage_[offset_[0..n)) */
+typedef struct { UniformGrid log_energy_; NonuniformGrid range_; } InverseRangeCalculator;
+double __CPROVER_uninterpreted_ipow2(double);
+#define IPOW2(x) __CPROVER_uninterpreted_ipow2(x)
+size_type nondet_size_type(void);
+static size_type NUG_size(NonuniformGrid const* g) { return g->n; }
+static real_type NUG_front(NonuniformGrid const* g) { return g->a[0]; }
+static real_type NUG_back(NonuniformGrid const* g) { return g->a[g->n - 1]; }
+static real_type NUG_index(NonuniformGrid const* g, size_type i)
+{
+    __CPROVER_assert(i < g->n, "NUG_index.precondition: NonuniformGrid::operator[] i < size");
+    return g->a[i];
+}
+/* NonuniformGrid::find: contract enforced in c18_nonuniform_find (requires front <= v < back; returns i, i+1 < size, grid[i] <= v < grid[i+1]);
+ * encoded as: assert the precondition, return any index satisfying the postcondition */
+static size_type NUG_find(NonuniformGrid const* g, real_type v)
+{
+    __CPROVER_assert(v >= g->a[0] && v < g->a[g->n - 1], "NUG_find.precondition: value >= front && value < back");
+    size_type r = nondet_size_type();
+    __CPROVER_assume(r < g->n - 1);
+    __CPROVER_assume(g->a[r] <= v && v < g->a[r + 1]);
+    g_bin = r;
+    return r;
+}
+"""
+IRC_RULES = Q_RULES + [
+    Rule(r"LinearInterpolator<real_type> interpolate_log_energy\(\s*\{([^{}]*),([^{}]*)\},\s*\{([^{}]*),([^{}]*)\}\);", r"real_type ip_x0_ = \1, ip_y0_ = \2, ip_x1_ = \3, ip_y1_ = \4;", 1, note="LinearInterpolator construction -> its four arguments"),
+    Rule(r"std::exp\(", "STD_EXP(", "*", note="std::exp -> uninterpreted function"),
+    Rule(r"ipow<2>\(", "IPOW2(", 1, note="ipow<2> -> uninterpreted function (value not decided)"),
+    Rule(r"range_\.(front|back|size)\(\)", r"NUG_\1(&self->range_)", "*", note="NonuniformGrid accessor"),
+    Rule(r"range_\.find\(", "NUG_find(&self->range_, ", 1, note="NonuniformGrid::find -> stub with the c18_nonuniform_find contract"),
+    Rule(r"range_\[([^\[\]]*)\]", r"NUG_index(&self->range_, \1)", "*", note="NonuniformGrid::operator[] (asserts i < size)"),
+    Rule(r"log_energy_\.(front|back|size)\(\)", r"UG_\1(&self->log_energy_)", "*", note="UniformGrid accessor"),
+    Rule(r"log_energy_\[([^\[\]]*)\]", r"UG_index(&self->log_energy_, \1)", "*", note="UniformGrid::operator[] -> stub with the c18_ug_index contract"),
+    Rule(r"auto idx = ", "size_type idx = ", 1, note="auto"),
+    Rule(r"auto loge = interpolate_log_energy\(([^()]*)\);", r"real_type loge = __CPROVER_uninterpreted_interp(ip_x0_, ip_y0_, ip_x1_, ip_y1_, \1);", 1, note="interpolator call -> uninterpreted function"),
+]
+
+
+def build_irc_call(ctx):
+    pc = ctx.func(IRC, r"^InverseRangeCalculator::operator\(\)\(real_type range\) const -> Energy", IRC_RULES, name="InverseRangeCalculator::operator()")
+    return (HDR + CALC_MODEL + IRC_MODEL + """
+#define RA(i) (self->range_.a[i])
+#define RN (self->range_.n)
+#define LG (self->log_energy_.data_)
+#define GRIDPT(i) __CPROVER_uninterpreted_gridpoint(LG->front, LG->delta, (i))
+real_type IRC_call(InverseRangeCalculator const* self, real_type range)
+__CPROVER_requires(self != 0 && LG != 0 && LG->size >= 2 && RN == LG->size && RN <= 100000 && __CPROVER_r_ok(self->range_.a, RN * sizeof(real_type)))   /* constructor EXPECT: range_.size() == log_energy_.size() */
+__CPROVER_requires(!__CPROVER_isnand(range) && range >= 0 && range <= RA(RN - 1))    /* own CELER_EXPECT */
+__CPROVER_requires(FIN(RA(0)) && FIN(RA(RN - 1)) && RA(0) < RA(RN - 1))   /* the range table is strictly increasing (instance at the ends) */
+__CPROVER_assigns(g_bin)
+/* documented extrapolation below the table: E = Emin (r / r0)^2 */
+#define I_LOW EQV(__CPROVER_return_value, STD_EXP(LG->front) * IPOW2(range / RA(0)))
+#define I_INTERP ((g_bin + 1 < RN) ? (RA(g_bin) <= range && range < RA(g_bin + 1) && EQV(__CPROVER_return_value, __CPROVER_uninterpreted_interp(RA(g_bin), STD_EXP(GRIDPT(g_bin)), RA(g_bin + 1), STD_EXP(GRIDPT(g_bin + 1)), range))) : 0)
+__CPROVER_ensures(range < RA(0) ==> I_LOW)
+/* exactly at the first knot the scaled value and the interpolation coincide mathematically: either form is accepted */
+__CPROVER_ensures((range == RA(0) && range < RA(RN - 1)) ==> (I_LOW || I_INTERP))
+/* exactly the longest range: the highest energy */
+__CPROVER_ensures((range >= RA(0) && range >= RA(RN - 1)) ==> EQV(__CPROVER_return_value, STD_EXP(LG->back)))
+/* inside: interpolation on x = range, y = energy between knots bin and bin+1 where range[bin] <= r < range[bin+1] */
+__CPROVER_ensures((range > RA(0) && range < RA(RN - 1)) ? I_INTERP : 1)
+{""" + pc.body + """}
+void h_irc(void)
+{
+    UniformGridData d; size_type n; __CPROVER_assume(n >= 2 && n <= 100000);
+    real_type* r = malloc(n * sizeof(real_type)); __CPROVER_assume(r != 0);
+    InverseRangeCalculator c = {{&d}, {r, n}}; real_type x;
+    IRC_call(&c, x);
+    VERIF_CANARY();
+}
+""")
+
+
+UNITS += [
+    Unit("c14_range_get", build_range_get, "h_calc", enforce="RN_get", timeout=120, must_have=[r"RN_get.postcondition", r"celer_expect"], checks=["--bounds-check", "--pointer-check"],
+         note="RangeCalculator::get: both index checks hold when the index designates a point of this grid"),
+    Unit("c14_range_call", build_range_call, "h_calc", enforce="RN_call", replace=["UG_find"], timeout=300, backend=["sat", "cvc5", "z3"],
+         must_have=[r"RN_call.postcondition", r"celer_assert", r"XS_get.precondition", r"UG_find.precondition", r"UG_index.precondition"], checks=["--bounds-check", "--pointer-check"],
+         assumptions=["std::log / std::exp / LinearInterpolator are uninterpreted functions", "UniformGrid::find/operator[] by their C18 contracts"],
+         note="RangeCalculator::operator(): every index in range, find() only inside the grid; sqrt(E/Emin) scaling below the grid, clipping to the last value above, interpolation between knots bin and bin+1 inside"),
+    Unit("c14_inverse_range_call", build_irc_call, "h_irc", enforce="IRC_call", timeout=300, backend=["sat", "cvc5", "z3"],
+         must_have=[r"IRC_call.postcondition", r"celer_assert", r"celer_expect", r"NUG_find.precondition", r"NUG_index.precondition", r"UG_index.precondition"], checks=["--bounds-check", "--pointer-check"],
+         assumptions=["std::exp / ipow<2> / LinearInterpolator are uninterpreted functions", "NonuniformGrid::find by its c18_nonuniform_find contract; UniformGrid::operator[] by c18_ug_index"],
+         note="InverseRangeCalculator::operator(): every index in range, find() only called with front <= r < back; (r/r0)^2 scaling below the table, highest energy exactly at the longest range, interpolation between the knots that bracket r"),
+]
